@@ -1,11 +1,17 @@
 /* TRUSTED model of libc atoi (C11 7.22.1.2 = strtol base 10 without error handling): optional white space, optional sign,
  * longest digit sequence.  It reads exactly the characters the real one has to inspect (up to and including the first
- * non-digit), so CBMC's pointer checks on the caller's buffer also cover the reads atoi performs on the library's behalf.
- * Pure (no ghost state): usable below an enforced contract without widening its frame. */
+ * non-digit), each once, so CBMC's pointer checks on the caller's buffer also cover the reads atoi performs on the
+ * library's behalf.  Pure (no ghost state): usable below an enforced contract without widening its frame.
+ * Domain of the model: numbers of at most 4 digits (asserted) -- the digit part is written without a loop and without
+ * multiplications so that the unwound formula stays small. */
 int atoi(const char *s) {
-  int i = 0, v = 0, neg = 0;
-  while (s[i] == ' ' || (s[i] >= '\t' && s[i] <= '\r')) i++;
-  if (s[i] == '+' || s[i] == '-') { neg = (s[i] == '-'); i++; }
-  while (s[i] >= '0' && s[i] <= '9') { v = v * 10 + (s[i] - '0'); i++; }
-  return neg ? -v : v;
+  unsigned v = 0; int neg = 0; char c;
+  for (;; s++) { c = *s; if (!(c == ' ' || (c >= '\t' && c <= '\r'))) break; }
+  if (c == '+' || c == '-') { neg = (c == '-'); s++; c = *s; }
+  if (c >= '0' && c <= '9') { v = (unsigned)(c - '0'); s++; c = *s;
+    if (c >= '0' && c <= '9') { v = (v << 3) + (v << 1) + (unsigned)(c - '0'); s++; c = *s;
+      if (c >= '0' && c <= '9') { v = (v << 3) + (v << 1) + (unsigned)(c - '0'); s++; c = *s;
+        if (c >= '0' && c <= '9') { v = (v << 3) + (v << 1) + (unsigned)(c - '0'); s++; c = *s;
+          __CPROVER_assert(!(c >= '0' && c <= '9'), "atoi model: at most 4 digits"); } } } }
+  return neg ? -(int)v : (int)v;
 }
